@@ -73,7 +73,7 @@ class Region:
 
 
 class State:
-    __slots__ = ('pc', 'env', 'mem', 'dead', 'retyped', 'written', 'allocated', 'version', 'ghost')
+    __slots__ = ('pc', 'env', 'mem', 'dead', 'retyped', 'written', 'allocated', 'version', 'ghost', 'lit')
 
     def __init__(self):
         self.pc = []
@@ -85,6 +85,7 @@ class State:
         self.allocated = []  # heap root regions allocated since function entry
         self.version = 0
         self.ghost = {}
+        self.lit = {}        # region id -> (array term id, {literal index: value}): reads at literal indices without the solver's rewriter
 
     def copy(self):
         s = State()
@@ -97,6 +98,7 @@ class State:
         s.allocated = list(self.allocated)
         s.version = self.version
         s.ghost = dict(self.ghost)
+        s.lit = {k: (v[0], dict(v[1]), v[2]) for k, v in self.lit.items()}
         return s
 
 
